@@ -31,18 +31,22 @@ type State struct {
 	ghost  map[string]Term
 	defers []deferred
 	hmark  map[string]int
+	baseEpoch int // epoch before the first entry of havocs
 	// protected: references to objects allocated by this function that provably never escape it
 	// (only used as method receivers / field bases): calls with unknown effects cannot touch them
 	protected []Term
 	// stableCells: heap cells the contract declares stable under calls with unknown effects (`stable p.f`)
 	stableCells []stableCell
+	// havocs: calls with unknown effects that PRESERVED some heap fields (key prefix, minus exceptions); a field read
+	// for the first time after such a call still has its older value if the call preserved it
+	havocs []havocEvent
 	// heapParams != nil: spec-function translation mode, heap reads become parameters h$<key>
 	heapParams map[string]Sort
 }
 
 func (s *State) Clone() *State {
 	n := &State{vars: make(map[types.Object]Term, len(s.vars)), heap: make(map[string]Term, len(s.heap)), epoch: s.epoch,
-		clos: s.clos, ghost: make(map[string]Term, len(s.ghost)), hmark: make(map[string]int, len(s.hmark)), heapParams: s.heapParams}
+		clos: s.clos, ghost: make(map[string]Term, len(s.ghost)), hmark: make(map[string]int, len(s.hmark)), heapParams: s.heapParams, baseEpoch: s.baseEpoch}
 	for k, v := range s.hmark {
 		n.hmark[k] = v
 	}
@@ -59,6 +63,7 @@ func (s *State) Clone() *State {
 	n.defers = append([]deferred(nil), s.defers...)
 	n.protected = append([]Term(nil), s.protected...)
 	n.stableCells = s.stableCells
+	n.havocs = append([]havocEvent(nil), s.havocs...)
 	return n
 }
 
@@ -67,6 +72,33 @@ func (s *State) Assume(t Term) {
 		return
 	}
 	s.pc = append(s.pc, t)
+}
+
+type havocEvent struct {
+	epoch  int
+	prefix string   // keys with this prefix are preserved ...
+	except []string // ... except these
+}
+
+func (h havocEvent) preserves(key string) bool {
+	if h.prefix == "" {
+		return false
+	}
+	match := false
+	for _, p := range strings.Fields(h.prefix) {
+		if strings.HasPrefix(key, p) {
+			match = true
+		}
+	}
+	if !match {
+		return false
+	}
+	for _, e := range h.except {
+		if e == key {
+			return false
+		}
+	}
+	return true
 }
 
 type stableCell struct {
@@ -154,6 +186,7 @@ type FuncVerifier struct {
 	globalWrites   []string
 	yieldVar       *types.Var
 	nondet         []string // sources of nondeterminism met while executing (for `functional`)
+	curState       *State
 	localOnly      map[types.Object]bool
 	allocTerms     map[string]bool
 }
@@ -382,6 +415,15 @@ func (fv *FuncVerifier) heapGet(st *State, key string, sort Sort) Term {
 		return t
 	}
 	ver := st.epoch
+	if len(st.havocs) > 0 {
+		// the newest havoc that did not preserve this field decides
+		ver = st.baseEpoch
+		for _, h := range st.havocs {
+			if !h.preserves(key) && h.epoch > ver {
+				ver = h.epoch
+			}
+		}
+	}
 	if strings.HasPrefix(key, "$ghost:") {
 		ver = 0 // ghost state is not touched by calls with unknown effects
 	}
@@ -404,8 +446,12 @@ func fieldKey(recv types.Type, field string) string {
 		t = p.Elem()
 	}
 	name := types.TypeString(t, func(p *types.Package) string { return relPkg(p.Path()) })
+	keyOwner[name+"."+field] = types.TypeString(types.NewPointer(t), nil)
 	return name + "." + field
 }
+
+// keyOwner: heap field key -> type string of the pointer type whose objects have that field.
+var keyOwner = map[string]string{}
 
 func (fv *FuncVerifier) readField(st *State, ref Term, key string, fsort Sort) Term {
 	h := fv.heapGet(st, key, Sort(fmt.Sprintf("(Array Ref %s)", fsort)))
@@ -424,17 +470,26 @@ func (fv *FuncVerifier) writeField(st *State, ref Term, key string, fsort Sort, 
 }
 
 // havocAll forgets every heap value (a call with unknown effects).
-func (fv *FuncVerifier) havocAll(st *State) {
+func (fv *FuncVerifier) havocAll(st *State) { fv.havocAllExcept(st, "", nil) }
+
+// havocAllExcept forgets the heap except ghost state and the fields whose key starts with keepPrefix (minus except).
+func (fv *FuncVerifier) havocAllExcept(st *State, keepPrefix string, except []string) {
 	fv.nfresh++
 	old := st.heap
+	ev := havocEvent{epoch: fv.nfresh, prefix: keepPrefix, except: except}
+	if len(st.havocs) == 0 {
+		st.baseEpoch = st.epoch
+	}
+	st.havocs = append(st.havocs, ev)
 	st.epoch = fv.nfresh
 	keep := map[string]Term{}
 	for k, v := range st.heap {
-		if strings.HasPrefix(k, "$ghost:") {
+		if strings.HasPrefix(k, "$ghost:") || ev.preserves(k) {
 			keep[k] = v
 		}
 	}
 	st.heap = keep
+	fv.growAlloc(st)
 	for _, c := range st.stableCells {
 		if v, ok := old[c.key]; ok {
 			nh := fv.heapGet(st, c.key, v.Sort)
@@ -459,6 +514,18 @@ func (fv *FuncVerifier) havocAll(st *State) {
 			}
 		}
 	}
+}
+
+// growAlloc: code we do not see may have allocated: the set of allocated objects becomes an arbitrary superset.
+func (fv *FuncVerifier) growAlloc(st *State) {
+	if st.heapParams != nil {
+		return
+	}
+	old := fv.heapGet(st, "$ghost:alloc", "(Array Ref Bool)")
+	nw := fv.fresh("alloc", "(Array Ref Bool)")
+	st.Assume(T(SBool, "(forall ((r$ Ref)) (! (=> (select %s r$) (select %s r$)) :pattern ((select %s r$))))", old.S, nw.S, old.S))
+	st.Assume(Not(App(SBool, "select", nw, Null)))
+	st.heap["$ghost:alloc"] = nw
 }
 
 // isLocalOnly: every use of the local variable v inside the function under verification is as the base of a
@@ -1133,6 +1200,12 @@ const contentKey = "$content"
 
 // specialAlloc initialises ghost state for library objects.
 func (fv *FuncVerifier) specialAlloc(st *State, r Term, t types.Type) bool {
+	if n, ok := t.(*types.Named); ok && n.Obj().Pkg() != nil && n.Obj().Pkg().Path() == "sync" && n.Obj().Name() == "Map" {
+		sr := fv.w.SeqSort(SRef)
+		fv.writeField(st, r, "$syncmap:keys", sr, fv.w.SeqEmpty(sr))
+		fv.writeField(st, r, "$syncmap:vals", sr, fv.w.SeqEmpty(sr))
+		return true
+	}
 	if isContentObject(t) {
 		fv.writeField(st, r, contentKey, fv.w.SeqSort(SInt), fv.w.SeqEmpty(fv.w.SeqSort(SInt)))
 		return true
@@ -1174,6 +1247,12 @@ func (fv *FuncVerifier) evalComposite(st *State, env *Env, x *ast.CompositeLit) 
 		if !w.IsStruct(s) {
 			// opaque external struct (e.g. scanner.Scanner{}, sync.Map{})
 			if n, ok := t.(*types.Named); ok && isContentObject(n) {
+				r := fv.alloc(st, types.NewPointer(t), "obj")
+				fv.specialAlloc(st, r, t)
+				return r
+			}
+			if s == SRef {
+				// an opaque library object held by value (sync.Map{}, scanner.Scanner{}): modelled as a fresh object
 				r := fv.alloc(st, types.NewPointer(t), "obj")
 				fv.specialAlloc(st, r, t)
 				return r
